@@ -10,8 +10,8 @@
   `Levy.median` uses the abstract `SF.erfc_inv` on both sides (no premise).
 -/
 import Statrs.Real.Simp
-import Statrs.Draft.Spec.Location
-import Statrs.Draft.Lemmas.LocationPins
+import Statrs.Spec.Location
+import Statrs.Lemmas.LocationPins
 import Statrs.Gen.D_hypergeometric
 import Statrs.Gen.D_inverse_gamma
 import Statrs.Gen.D_laplace
